@@ -344,6 +344,12 @@ def run_tlc(spec, cfg, env, workers=8, timeout=3000, metaname="tlc", extra=(), x
     if p.returncode == 124:
         raise ToolError("TLC timeout on %s" % spec)
     ok = "Model checking completed. No error has been found." in out
+    if any(str(x).startswith("-simulate") for x in extra):
+        # random simulation: TLC reports the number of traces and stops; an invariant violation is reported as in model checking
+        ok = "traces generated" in out and "Error:" not in out and "is violated" not in out
+        m = re.search(r"The number of states generated: (\d+)", out)
+        if m:
+            res["states"] = res["distinct"] = int(m.group(1))
     res["ok"] = ok
     if not ok and "is violated" not in out and "Invariant" not in out:
         raise ToolError("TLC failed on %s (rc %s):\n%s\n%s" % (spec, p.returncode, out[-4000:], p.stderr[-2000:]))
